@@ -8,6 +8,7 @@
 import Mathlib.Algebra.Order.Field.Basic
 import TjdModel.Agg.Spec2
 import TjdLemmas.PermLemmas
+import TjdLemmas.KrumPermLemmas
 import TjdProps.C10
 namespace Tjd.Props.C10
 open Tjd Tjd.Agg
@@ -62,6 +63,15 @@ theorem aligned_row_perm [Inhabited α] (J : Mat α) (m n : Nat) (hJ : MatWF J m
     alignedWeights (permV p J) (vecs.map (permV p)) sigma (permV p w) =
       (alignedWeights J vecs sigma w).map (permV p) := by
   exact PermL.aligned_row_perm' J m n hJ vecs sigma w hv hw p hp hcert hs
+
+/-- Krum: permuting the rows permutes rows and columns of the distance matrix.  If the `k`-th and `(k+1)`-th lowest
+    scores differ (the gap reported by the model is positive — `topk` breaks exact ties by index, and the property
+    excludes them), the weights of the permuted problem are the permuted weights. -/
+theorem krum_row_perm_of_gap [Inhabited α] (D : Mat α) (m : Nat) (hD : D.length = m)
+    (hrows : ∀ r ∈ D, r.length = m) (f k : Nat) (hk : 1 ≤ k) (hkm : k < m) (p : List Nat)
+    (hp : p.Perm (List.range m)) (hgap : 0 < (krumWeights D f k).2) :
+    (krumWeights (permV p (D.map (permV p))) f k).1 = permV p (krumWeights D f k).1 := by
+  exact PermL.krum_row_perm' D m hD hrows f k hk hkm p hp hgap
 
 /-- C11 (continued): Krum's selection is invariant under positive scaling of the distances, hence Krum is
     positively homogeneous -/
